@@ -1,5 +1,6 @@
 import TbotVerif.Props.CtxExec
 import TbotVerif.Props.CtxLeak6
+import TbotVerif.Props.CtxTrace4
 set_option linter.unusedSimpArgs false
 set_option linter.unusedVariables false
 /-! # C14 — the context never has two live instances of a machine and never leaks one
@@ -103,6 +104,25 @@ theorem I2 (cs : Case) (hwf : cs.wf = true) : specI2 (run cs).reverse = true := 
   have hl := I2_no_leak cs hwf
   unfold specI2
   simp [ha.1, ha.2, hl]
+
+/-- **I4** — keep-alive off throughout the case (`keep_alive=False` and no
+    `reconfigure(keep_alive=True)`): when the last request on a class — made by the program or by a
+    `from_context` — has been left, no object of that class is up.  Every fault oracle. -/
+theorem I4 (cs : Case) (hwf : cs.cfg.wf = true) : specI4 cs (run cs).reverse = true := by
+  unfold specI4
+  by_cases hk : cs.kaOff = true
+  · simp only [hk, Bool.not_true, Bool.false_or]
+    rw [run_reverse]
+    unfold Case.kaOff at hk
+    simp only [Bool.and_eq_true, Bool.not_eq_true'] at hk
+    have h3 : Inv3 (fun _ => 0) (initSt cs.ka cs.roe) := by
+      constructor <;> simp [initSt, opens]
+    have g4 : G4 (initSt cs.ka cs.roe) := ⟨by simp [initSt, hk.1], by simp [initSt]⟩
+    have := execBlock_G4 cs.cfg (depsBelow_of_wf hwf) cs.prog _ hk.2 (inv_init cs.ka cs.roe) h3 g4
+    unfold runSt
+    simp only [St.log, always_cons, condRelease, Bool.true_and]
+    exact this.2.good
+  · simp [hk]
 
 /-! ### non-vacuity -/
 
